@@ -29,6 +29,8 @@ CONSTANTS NA,          \* number of azimuths (1 = traditional)
           TdMasks,     \* set of window sets a time-domain rejection may select
           InitSel,     \* set of curve-id assignments explored (sequence over azimuths of sequences over windows)
           SThr,        \* rational: 0.01 / (Hz per grid step), threshold of |sigma_after - sigma_before| in grid steps
+          DFree,       \* TRUE: lognormal fn - the criterion on |mean fn - mean-curve peak| involves exp() of
+                       \* rationals and is left open (both outcomes) in the P tier; everything else stays exact
           Export
 
 Az  == 1..NA
@@ -72,7 +74,7 @@ Level(a, j)     == [w \in Win |-> Curve(a, w)[j]]
 SumCurve(a, A)  == [j \in 1..NF |-> Sum1(A, Level(a, j))]
 
 \* property-level peak set of the mean curve of azimuth a over windows A with range r
-McPeaksP(a, A, r) == P_Allowed(SumCurve(a, A), r[1], r[2])
+McPeaksP(a, A, r) == PT_Allowed(SumCurve(a, A), r[1], r[2])
 McPeakI(a, A, r)  == I_Peak(SumCurve(a, A), r[1], r[2])
 
 -----------------------------------------------------------------------------
@@ -84,9 +86,10 @@ McPeakI(a, A, r)  == I_Peak(SumCurve(a, A), r[1], r[2])
      inside the bounds      <=>  (pk - mu)^2 < n^2 var
      |s_after - s_before|   <   0.01  by squaring (Rat!SqrtDiffLt)
    mode "P": exact ties are kept as both outcomes and the mean-curve peak is
-             any allowed one;  mode "I": strict comparisons on the exact
-             values, first mean-curve peak (what IEEE arithmetic gives when
-             no tie is present).                                            *)
+             any allowed one;  mode "I": a peak exactly on a bound is kept (not
+             "outside"), convergence comparisons strict on the exact values,
+             first mean-curve peak (what IEEE arithmetic gives when no tie is
+             present).                                                       *)
 
 Hundredth == Q(1, 100)
 
@@ -100,7 +103,7 @@ McChoices(mode, a, A, r) ==
 KeepChoices(mode, a, p, cur, mu, n, var) ==
     LET sure == { w \in cur : p[a][w] # 0 /\ InsideLt(p[a][w], mu, n, var) }
         edge == { w \in cur : p[a][w] # 0 /\ InsideEq(p[a][w], mu, n, var) }
-    IN  IF mode = "P" THEN { sure \cup e : e \in SUBSET edge } ELSE {sure}
+    IN  IF mode = "P" THEN { sure \cup e : e \in SUBSET edge } ELSE {sure \cup edge}
 
 RECURSIVE FdwraIter(_, _, _, _, _, _, _, _, _)
 FdwraIter(mode, a, p, r, n, maxit, k, mw, mp) ==
@@ -146,7 +149,9 @@ FdwraIter(mode, a, p, r, n, maxit, k, mw, mp) ==
               tie   == (dLt \/ dEq) /\ (sLt \/ sEq) /\ ~conv
               more  == IF k >= maxit THEN done
                        ELSE FdwraIter(mode, a, p, r, n, maxit, k + 1, mw2, mp2)
-          IN  IF conv THEN done
+          IN  IF DFree /\ mode = "P"
+              THEN (IF sLt \/ sEq THEN done \cup more ELSE more)
+              ELSE IF conv THEN done
               ELSE IF tie /\ mode = "P" THEN done \cup more
               ELSE more
           : mca \in McChoices(mode, a, Ac2, r) }
@@ -319,12 +324,16 @@ AzStats(a) ==
          mcp  |-> IF okc THEN McPeaksP(a, C, rng) ELSE {},
          mcpi |-> IF okc THEN McPeakI(a, C, rng) ELSE 0 ]
 
+\* the weighted mean curve scaled to integers (common denominator NA * prod |CS[a]|), for the peak rules
+WScaledCurve(CS) ==
+    LET D == NA * FoldSet(LAMBDA a, acc : acc * Cardinality(CS[a]), 1, Az)
+    IN  [j \in 1..NF |-> LET m == WMean(CS, [a \in Az |-> Level(a, j)]) IN m[1] * (D \div m[2])]
+
 \* azimuthal (Cheng et al. 2020): every azimuth weighs the same
 WStats ==
     LET AS  == [a \in Az |-> AccFn(a, pk, vp)]
         CS  == [a \in Az |-> AccCv(a, vw)]
         ok  == \A a \in Az : Cardinality(AS[a]) >= 1
-        ok2 == ok /\ \E a \in Az : Cardinality(AS[a]) >= 2 \/ NA >= 2
         okc == \A a \in Az : Cardinality(CS[a]) >= 1
         pi  == [a \in Az |-> PkIdx(a, pk)]
         pa  == [a \in Az |-> PkAmp(a, pk)]
@@ -339,7 +348,42 @@ WStats ==
          va   |-> RatOrNull(ok3, WVar(AS, pa)),
          cfa  |-> RatOrNull(ok3, WCov(AS, pi, pa)),
          mc   |-> IF okc3 THEN [j \in 1..NF |-> WMean(CS, [a \in Az |-> Level(a, j)])] ELSE <<>>,
-         vc   |-> IF okc3 THEN [j \in 1..NF |-> WVar(CS, [a \in Az |-> Level(a, j)])] ELSE <<>> ]
+         vc   |-> IF okc3 THEN [j \in 1..NF |-> WVar(CS, [a \in Az |-> Level(a, j)])] ELSE <<>>,
+         mcp  |-> IF okc3 THEN PT_Allowed(WScaledCurve(CS), rng[1], rng[2]) ELSE {},
+         mcpi |-> IF okc3 THEN I_Peak(WScaledCurve(CS), rng[1], rng[2]) ELSE 0 ]
+
+-----------------------------------------------------------------------------
+(* C11: algebraic content of the azimuthal weighting, checked in every reachable state *)
+
+FnSets == [a \in Az |-> AccFn(a, pk, vp)]
+FnIdx  == [a \in Az |-> PkIdx(a, pk)]
+FnOK   == (\A a \in Az : FnSets[a] # {}) /\ FoldSet(LAMBDA a, acc : acc + Cardinality(FnSets[a]), 0, Az) >= 2
+
+\* one azimuth: every weighted statistic is the traditional one
+SingleAzimuthIsTraditional ==
+    (NA = 1 /\ Cardinality(FnSets[1]) >= 2) =>
+        /\ WMean(FnSets, FnIdx) = Mean(FnSets[1], FnIdx[1])
+        /\ WVar(FnSets, FnIdx)  = Var1(FnSets[1], FnIdx[1])
+        /\ WCov(FnSets, FnIdx, [a \in Az |-> PkAmp(a, pk)]) = Cov1(FnSets[1], FnIdx[1], PkAmp(1, pk))
+
+\* equally many accepted windows on every azimuth: the unweighted statistic of the pooled windows
+Pooled == { <<a, w>> : a \in Az, w \in Win }
+PooledAcc == { q \in Pooled : q[2] \in FnSets[q[1]] }
+PooledIdx == [q \in Pooled |-> pk[q[1]][q[2]]]
+EqualCountsIsPooled ==
+    (FnOK /\ \A a, b \in Az : Cardinality(FnSets[a]) = Cardinality(FnSets[b])) =>
+        /\ WMean(FnSets, FnIdx) = Mean(PooledAcc, PooledIdx)
+        /\ WVar(FnSets, FnIdx)  = Var1(PooledAcc, PooledIdx)
+
+\* the order of the azimuths is irrelevant
+Rev(f) == [a \in Az |-> f[NA + 1 - a]]
+AzimuthOrderIrrelevant ==
+    FnOK => /\ WMean(Rev(FnSets), Rev(FnIdx)) = WMean(FnSets, FnIdx)
+            /\ WVar(Rev(FnSets), Rev(FnIdx))  = WVar(FnSets, FnIdx)
+
+\* the mean is the plain average of the per-azimuth means; total weight is one
+MeanOfAzimuthMeans ==
+    FnOK => WMean(FnSets, FnIdx) = RDiv(RSumOver(Az, LAMBDA a : Mean(FnSets[a], FnIdx[a])), R(NA))
 
 St == [r |-> rng, m |-> mrng, pk |-> pk, vw |-> vw, vp |-> vp]
 
